@@ -1,5 +1,6 @@
 import EmsModel.Core.Plot
-import EmsModel.Props.C06
+import EmsModel.Lemmas.BBox
+import Mathlib.Algebra.Order.Field.Rat
 /-!
 # C19 — plot artists pair every value with its own cell
 -/
@@ -65,7 +66,7 @@ theorem clim_spec (values : List (Option Rat)) (lo hi : Rat) (h : defaultClim va
     obtain ⟨a, b', c, d⟩ := b
     simp only [hb, Option.some.injEq, Prod.mk.injEq] at h
     obtain ⟨rfl, rfl⟩ := h
-    obtain ⟨hall, ⟨p1, hp1, e1⟩, _, ⟨p3, hp3, e3⟩, _⟩ := C06.bbox_spec _ a b' c d hb
+    obtain ⟨hall, ⟨p1, hp1, e1⟩, _, ⟨p3, hp3, e3⟩, _⟩ := Ems.bbox_extent _ a b' c d hb
     refine ⟨?_, ?_, ?_⟩
     · intro x hx
       have := hall (x, x) (by simp [List.mem_filterMap]; exact hx)
